@@ -348,6 +348,11 @@ def float_ops(vt, P1, P0, full, rng):
     # go straight to the assertion form with a longer budget, and the quick tier keeps only the vector-vector forms
     heavy = n >= 16
     uf = lambda *a, **kw: heavy_case(lanewise(*a, mode='UF', **kw)) if heavy else lanewise(*a, mode='UF', **kw)
+    # The generic template stores through std::copy; on P0 that stays a memmove whose length is a difference of ptrtoint values,
+    # and cbmc's memmove model then drops the last element in assertion form (spurious lane failure, reproduced on a 15-line C
+    # file).  Its UF cases therefore use the optimised pipeline, where the copy is a constant-length memcpy; every case is a
+    # single operation (or a*b+c), so there is nothing for instcombine to re-associate.
+    if vt.generic: P0 = P1
     for op, sym in (('add', '+'), ('sub', '-'), ('mul', '*'), ('div', '/')):
         for fname, ex, nin, sc, ip in (forms if full else forms[:1] + ([] if heavy else [rng.choice(forms[1:])])):
             out.append(uf('%s-%s' % (op, fname), vt, P0, ex % sym, arith_spec(op, fname), nin=nin, scalar=sc, inplace=ip))
